@@ -309,6 +309,17 @@ func c16Corpus() []c16Case {
 	cs = append(cs, c16Case{algos: []string{"gzip"}, max: 1000, ct: "gzip", reqs: []c16Req{{mode: "client", body: c16Body{kind: 'r', n: 1000, seed: 7}}}})
 	// 2: unknown name in the list + a request naming it (nil decoder func on the pinned tree)
 	cs = append(cs, c16Case{algos: []string{"", "br"}, max: 1000, ct: "none", reqs: []c16Req{{mode: "garbage", hdr: "br", body: x("abc")}, {mode: "client", body: x("after")}}})
+	// unknown names in every position of the list, with and without "": an unencoded request, a gzip request, a request naming the
+	// unknown algorithm and a zstd request against each (the server under test is the second built from that configuration)
+	for _, l := range [][]string{{"br", "gzip", "zstd"}, {"gzip", "br", "zstd"}, {"gzip", "zstd", "br"}, {"br"}, {"br", "x-foo", "gzip"}, {"br", "br", "gzip", "zstd", "snappy"},
+		{"", "br", "gzip"}, {"br", "", "gzip"}, {"br", "gzip", ""}} {
+		cs = append(cs, c16Case{algos: l, max: 1000, ct: "none", reqs: []c16Req{
+			{mode: "client", body: x("plain request")},
+			{mode: "pre", hdr: "gzip", lib: "gzip", lvl: 6, body: c16Body{kind: 't', n: 300}},
+			{mode: "garbage", hdr: "br", body: x("abc")},
+			{mode: "pre", hdr: "zstd", lib: "zstd", lvl: 3, body: c16Body{kind: 't', n: 300}},
+			{mode: "client", body: x("plain again")}}})
+	}
 	// 3..8: zip-bomb shape, every algorithm: 1 MiB of zeros against a limit just above the compressed size
 	for _, ct := range []string{"gzip", "zlib", "deflate", "snappy", "zstd", "lz4"} {
 		b := c16Body{kind: 'z', n: 1 << 20}
@@ -853,9 +864,35 @@ func c16Stage(t *testing.T, out *vOut, cs c16Case) bool {
 		seen.mu.Unlock()
 		w.WriteHeader(http.StatusOK)
 	})
+	// the configuration as the operator wrote it: token and private copy taken BEFORE any ToServer call (ToServer must not change it)
+	algosTok := c16AlgosToken(cs)
 	hss := &ServerConfig{Endpoint: "localhost:0", MaxRequestBodySize: cs.max}
 	if !cs.algosNil {
-		hss.CompressionAlgorithms = cs.algos
+		hss.CompressionAlgorithms = append(make([]string, 0, len(cs.algos)+2), cs.algos...)
+	}
+	algosBefore := append([]string(nil), hss.CompressionAlgorithms...)
+	algosNilBefore := hss.CompressionAlgorithms == nil
+	// ToServer's own defaulting writes into the configuration (nil list -> the default list, size <= 0 -> the default size): allowed, nothing else
+	wantMax := cs.max
+	if wantMax <= 0 {
+		wantMax = defaultMaxRequestBodySize
+	}
+	if algosNilBefore {
+		algosBefore = append([]string(nil), defaultCompressionAlgorithms...)
+	}
+	checkServerCfg := func(gen int) {
+		same := len(hss.CompressionAlgorithms) == len(algosBefore) && hss.MaxRequestBodySize == wantMax
+		if same {
+			full := hss.CompressionAlgorithms[:len(hss.CompressionAlgorithms):len(hss.CompressionAlgorithms)]
+			for i := range full {
+				if full[i] != algosBefore[i] {
+					same = false
+				}
+			}
+		}
+		if !same {
+			out.Linef("viol sig=C16/config/input-mutated/server-compression-algorithms after-ToServer-call=%d before=%q after=%q max=%d", gen, algosBefore, hss.CompressionAlgorithms, hss.MaxRequestBodySize)
+		}
 	}
 	var opts []ToServerOption
 	for _, name := range cs.custom {
@@ -870,10 +907,24 @@ func c16Stage(t *testing.T, out *vOut, cs c16Case) bool {
 			w.WriteHeader(statusCode + add)
 		}))
 	}
-	srv, err := hss.ToServer(context.Background(), componenttest.NewNopHost(), componenttest.NewNopTelemetrySettings(), base, opts...)
-	if err != nil {
-		t.Fatalf("ToServer: %v", err)
+	// the server under test is the SECOND one built from the same ServerConfig value (a receiver restart / two components sharing one
+	// configuration); before the last request of a stage a THIRD one is built and takes over. All generations must behave as the
+	// configuration says, and no ToServer call may change the configuration it is given.
+	var srvMu sync.Mutex
+	var srv *http.Server
+	build := func(gen int) {
+		s2, err := hss.ToServer(context.Background(), componenttest.NewNopHost(), componenttest.NewNopTelemetrySettings(), base, opts...)
+		if err != nil {
+			t.Fatalf("ToServer: %v", err)
+		}
+		checkServerCfg(gen)
+		srvMu.Lock()
+		srv = s2
+		srvMu.Unlock()
 	}
+	build(1)
+	build(2)
+	out.Linef("stat server_generations_built 2")
 	aborted := map[string]bool{}
 	outer := http.HandlerFunc(func(w http.ResponseWriter, r *http.Request) {
 		if id := r.Header.Get("X-C16-Abort-Once"); id != "" {
@@ -901,14 +952,17 @@ func c16Stage(t *testing.T, out *vOut, cs c16Case) bool {
 				w.WriteHeader(http.StatusInternalServerError)
 			}
 		}()
-		srv.Handler.ServeHTTP(&c16StatusWriter{ResponseWriter: w, seen: seen}, r)
+		srvMu.Lock()
+		cur := srv
+		srvMu.Unlock()
+		cur.Handler.ServeHTTP(&c16StatusWriter{ResponseWriter: w, seen: seen}, r)
 	})
 	ts := httptest.NewServer(outer)
 	defer ts.Close()
 
 	hcs := &ClientConfig{Endpoint: ts.URL, Compression: configcompression.Type(cs.ct), CompressionParams: newCompressionParams(configcompression.Level(cs.lvl))}
 	hcs.MaxConnsPerHost = 1 // sequential requests of a stage share ONE keep-alive connection whenever the server keeps it open
-	out.Linef("op cfg algos=%s max=%d ct=%s lvl=%d custom=%s eh=%d", c16AlgosToken(cs), cs.max, vHex(cs.ct), cs.lvl, c16CustomToken(cs), cs.eh)
+	out.Linef("op cfg algos=%s max=%d ct=%s lvl=%d custom=%s eh=%d", algosTok, cs.max, vHex(cs.ct), cs.lvl, c16CustomToken(cs), cs.eh)
 	if err := hcs.Validate(); err != nil {
 		// not a usable configuration: the collector refuses to start with it
 		out.Linef("obs cfg client=invalid")
@@ -918,10 +972,24 @@ func c16Stage(t *testing.T, out *vOut, cs c16Case) bool {
 	if cty := configcompression.Type(cs.ct); cty.IsCompressed() && cs.lvl != 0 {
 		out.Linef("stat level_explicit_%s 1", cs.ct)
 	}
-	client, err := hcs.ToClient(context.Background(), componenttest.NewNopHost(), componenttest.NewNopTelemetrySettings())
+	// likewise the client under test is the SECOND one built from the same ClientConfig value; ToClient may only replace an unset
+	// compression level (0) by the default, nothing else of the compression settings / headers
+	ctBefore, lvlBefore, hdrBefore := hcs.Compression, hcs.CompressionParams.Level, len(hcs.Headers)
+	first, err := hcs.ToClient(context.Background(), componenttest.NewNopHost(), componenttest.NewNopTelemetrySettings())
 	if err != nil {
 		out.Linef("obs cfg client=err")
 		return false
+	}
+	first.CloseIdleConnections()
+	client, err := hcs.ToClient(context.Background(), componenttest.NewNopHost(), componenttest.NewNopTelemetrySettings())
+	if err != nil {
+		out.Linef("viol sig=C16/config/second-ToClient-from-the-same-config-fails ct=%s err=%v", cs.ct, err)
+		out.Linef("obs cfg client=err")
+		return false
+	}
+	if hcs.Compression != ctBefore || len(hcs.Headers) != hdrBefore ||
+		(hcs.CompressionParams.Level != lvlBefore && !(lvlBefore == 0 && hcs.CompressionParams.Level == configcompression.DefaultCompressionLevel)) {
+		out.Linef("viol sig=C16/config/input-mutated/client-compression before=%s/%d after=%s/%d", ctBefore, lvlBefore, hcs.Compression, hcs.CompressionParams.Level)
 	}
 	defer client.CloseIdleConnections()
 	out.Linef("obs cfg client=ok")
@@ -937,7 +1005,11 @@ func c16Stage(t *testing.T, out *vOut, cs c16Case) bool {
 	if cty := configcompression.Type(cs.ct); cty.IsCompressed() {
 		c16GetBodyCheck(out, cs)
 	}
-	for _, rq := range cs.reqs {
+	for ri, rq := range cs.reqs {
+		if ri > 0 && ri == len(cs.reqs)-1 {
+			build(3) // a third server from the same configuration, after the second one has served requests
+			out.Linef("stat server_generation_3_takes_over 1")
+		}
 		*seen = c16Seen{}
 		plain := rq.body.bytes()
 		var given []byte
